@@ -124,8 +124,10 @@ PROPS["C17"] = {
         {"pkg": "app", "name": "VerifC17_Launch", "quick": {}, "thorough": {},
          "bounds": {"layers": "inherited/global/per-process, <=1 entry each", "keys": "A (all layers), PC_PROC_NAME/PC_REPLICA_NUM (inherited)",
                     "values": "byte strings over {x,y} len<=1", "replica_num": "[0,99]"}},
+        {"pkg": "loader", "name": "VerifC17_Expand", "quick": {}, "thorough": {},
+         "bounds": {"text": "1..3 tokens from {literal over {a,-,space} len<=2, $$, $VX, ${VX}, ${VY}}", "expansion": "enabled/disabled", "values": "VX=val, VY=p$q"}},
     ],
-    "stubs": ["os.Environ bound to the harness list (natively the real environment is replaced by it)", "exec: last duplicate wins"],
+    "stubs": ["os.Environ bound to the harness list (natively the real environment is replaced by it)", "exec: last duplicate wins", "Expand: os.ReadFile, os.Getenv, godotenv.Load and yaml.Unmarshal (two-line decoder) are stubs under symgo; os.ExpandEnv is interpreted from the standard library's SSA; natively the real file, environment and YAML decoder are used"],
     "assumptions": ["global and per-process lists do not themselves define PC_PROC_NAME / PC_REPLICA_NUM"],
 }
 
